@@ -38,6 +38,7 @@ type Param struct {
 	CL    int    `json:"cl"`
 	N     int    `json:"n"`
 	TP    []int  `json:"tp"`
+	Tag   int    `json:"tag,omitempty"` // end-to-end runs: which recorded handshake the parameters belong to
 }
 
 type Case struct {
@@ -316,7 +317,7 @@ func main() {
 		if obs.Thorough() {
 			trials = 3
 		}
-		n, evals, nontriv, skipped := 0, 0, 0, 0
+		n, evals, nontriv, skipped, tagged := 0, 0, 0, 0, 0
 		perFn := map[string]int{}
 		seen := map[string]bool{}
 		distinct := map[string]bool{}
@@ -325,6 +326,10 @@ func main() {
 				c, err := readCase(line)
 				if err != nil {
 					return err
+				}
+				if c.P.Tag != 0 {
+					tagged++ // judged by e2e-check against the recorded handshake
+					return nil
 				}
 				n++
 				perFn[c.P.Fn]++
@@ -368,7 +373,143 @@ func main() {
 		obs.Stat("nontrivial", nontriv)
 		obs.Stat("skipped_unimplemented_suite", skipped)
 		obs.Stat("per_fn", perFn)
+		obs.Stat("tagged", tagged)
+	case "replay-seq":
+		n, evals := 0, 0
+		perFn := map[string]int{}
+		seen := map[string]bool{}
+		err := obs.ReadLines(os.Args[2], func(line []byte) error {
+			var c SeqCase
+			if err := json.Unmarshal(line, &c); err != nil {
+				return err
+			}
+			n++
+			perFn[c.Fn]++
+			for t := 0; t < 2; t++ {
+				trial := obs.Seed()*1000033 + int64(n)*17 + int64(t)
+				v, err := checkSeq(&c, trial)
+				if err != nil {
+					return fmt.Errorf("program %d (%s): %v", n, c.Fn, err)
+				}
+				evals++
+				if v.kind != "" {
+					sig := map[string]any{"fn": c.Fn, "kind": v.kind, "obs": c.Expect[v.idx].Name, "ver": c.Ver}
+					k, _ := json.Marshal(sig)
+					if !seen[string(k)] {
+						seen[string(k)] = true
+						c.Trial, c.Kind = trial, v.kind
+						obs.Emit(obs.Candidate{Sig: sig, What: v.what, Case: map[string]any{"seq": c}})
+					}
+					break
+				}
+			}
+			return nil
+		})
+		if err != nil {
+			obs.Fatal("%v", err)
+		}
+		obs.Stat("programs", n)
+		obs.Stat("evaluations", evals)
+		obs.Stat("per_fn", perFn)
+	case "e2e-run":
+		installHooks()
+		wp := obs.NewWriter(os.Args[2])
+		wo := obs.NewWriter(os.Args[3])
+		for _, s := range e2eSpecs(obs.Seed()) {
+			s := s
+			ob, err := runE2E(&s)
+			if err != nil {
+				obs.Fatal("end-to-end run %+v: %v", s, err)
+			}
+			wp.Write(ob.param())
+			wo.Write(ob)
+		}
+		wp.Close()
+		wo.Close()
+		obs.Stat("handshakes", wo.N)
+	case "e2e-check":
+		runs := map[int]*E2EObs{}
+		if err := obs.ReadLines(os.Args[3], func(line []byte) error {
+			var ob E2EObs
+			if err := json.Unmarshal(line, &ob); err != nil {
+				return err
+			}
+			runs[ob.Spec.Tag] = &ob
+			return nil
+		}); err != nil {
+			obs.Fatal("%v", err)
+		}
+		judged, compared := 0, 0
+		seen := map[string]bool{}
+		if err := obs.ReadLines(os.Args[2], func(line []byte) error {
+			c, err := readCase(line)
+			if err != nil {
+				return err
+			}
+			if c.P.Tag == 0 {
+				return nil
+			}
+			ob, ok := runs[c.P.Tag]
+			if !ok {
+				return fmt.Errorf("no recorded handshake with tag %d", c.P.Tag)
+			}
+			judged++
+			compared += 2 * len(c.Out)
+			for _, v := range checkE2E(ob, c) {
+				if v.kind == "harness" {
+					return fmt.Errorf("tag %d: %s", c.P.Tag, v.what)
+				}
+				sig := map[string]any{"fn": "e2e", "kind": v.kind, "ver": int(ob.Spec.Ver), "tls13": ob.Spec.Ver == 0x0304}
+				k, _ := json.Marshal(sig)
+				if !seen[string(k)] {
+					seen[string(k)] = true
+					obs.Emit(obs.Candidate{Sig: sig, What: v.what, Case: map[string]any{"e2e": ob.Spec, "case": c, "kind": v.kind}})
+				}
+			}
+			return nil
+		}); err != nil {
+			obs.Fatal("%v", err)
+		}
+		if judged != len(runs) {
+			obs.Fatal("%d recorded handshakes, %d judged (parameters outside the specification's domain?)", len(runs), judged)
+		}
+		obs.Stat("handshakes_judged", judged)
+		obs.Stat("values_compared", compared)
 	case "replay":
+		var any struct {
+			Seq  *SeqCase `json:"seq"`
+			E2E  *E2ESpec `json:"e2e"`
+			Case *Case    `json:"case"`
+			Kind string   `json:"kind"`
+		}
+		obs.ReadReplay(os.Args[2], &any)
+		if any.Seq != nil {
+			v, err := checkSeq(any.Seq, any.Seq.Trial)
+			if err != nil {
+				obs.Fatal("%v", err)
+			}
+			if v.kind != "" {
+				fmt.Println("reproduced:", v.what)
+				os.Exit(1)
+			}
+			fmt.Println("not reproduced")
+			return
+		}
+		if any.E2E != nil {
+			installHooks()
+			ob, err := runE2E(any.E2E)
+			if err != nil {
+				obs.Fatal("%v", err)
+			}
+			for _, v := range checkE2E(ob, any.Case) {
+				if v.kind == any.Kind {
+					fmt.Println("reproduced:", v.what)
+					os.Exit(1)
+				}
+			}
+			fmt.Println("not reproduced")
+			return
+		}
 		var c Case
 		obs.ReadReplay(os.Args[2], &c)
 		v, err := check(&c, c.Trial)
